@@ -1043,7 +1043,11 @@ func evalTerm(t *Term, vars map[*Term]uint64, memo map[*Term]uint64) (uint64, bo
 		return t.V, true
 	case OpVar:
 		v, ok := vars[t]
-		return v, ok
+		if !ok {
+			// unconstrained by the path condition: fix it to 0 in this model
+			vars[t] = 0
+		}
+		return v, true
 	}
 	if v, ok := memo[t]; ok {
 		return v, true
